@@ -39,6 +39,9 @@ pub struct StatSnap {
     pub overflows: u64,
     /// overflow counts seen just before each observed reset (a lower bound of what earlier epochs turned away)
     pub overflows_before_resets: u64,
+    /// largest overflow count seen on a recorder that held no address at all (i.e. right after
+    /// a published snapshot cleared it): must be 0, the table cannot be full when it is empty
+    pub overflows_on_empty: u64,
     pub entries: Vec<(IpAddr, [u64; 8])>,
 }
 
@@ -262,6 +265,7 @@ fn snap_stats(st: &dyn roughenough::stats::ServerStats, per_client: bool) -> Sta
         unique: st.total_unique_clients(),
         overflows: st.verif_num_overflows(),
         overflows_before_resets: 0,
+        overflows_on_empty: 0,
         entries,
     }
 }
@@ -288,7 +292,7 @@ fn w_worker(spec: ServerSpec, queue: Arc<roughenough::stats::StatsQueue>, snap: 
     let mut server = roughenough::server::Server::new(&cfg, sock, queue);
     let name = dsim::current_task_name().unwrap_or_default();
     let mut events = mio::Events::with_capacity(1024);
-    let (mut prev_over, mut acc_over) = (0u64, 0u64);
+    let (mut prev_over, mut acc_over, mut over_on_empty) = (0u64, 0u64, 0u64);
     loop {
         server.process_events(&mut events);
         if snap {
@@ -298,6 +302,10 @@ fn w_worker(spec: ServerSpec, queue: Arc<roughenough::stats::StatsQueue>, snap: 
             }
             prev_over = s.overflows;
             s.overflows_before_resets = acc_over;
+            if s.per_client && s.unique == 0 {
+                over_on_empty = over_on_empty.max(s.overflows);
+            }
+            s.overflows_on_empty = over_on_empty;
             ctx(|c| {
                 c.max_unique = c.max_unique.max(s.unique);
                 c.snaps.insert(name.clone(), s)
@@ -914,7 +922,7 @@ pub fn run(plan: &Plan, tape: dsim::Tape) -> RunOut {
                     })
                 });
             }
-            Action::Health { id } => dsim::with(|w| {
+            Action::Health { id, reset } => dsim::with(|w| {
                 w.at(at, move || {
                     let (iface, port) = match &plan2.server {
                         Some(s) => (s.interface.clone(), s.health_port.unwrap_or(0)),
@@ -925,7 +933,7 @@ pub fn run(plan: &Plan, tape: dsim::Tape) -> RunOut {
                         Err(_) => return,
                     };
                     let src = SocketAddr::new(IpAddr::V4(Ipv4Addr::new(10, 9, 0, (id % 250 + 1) as u8)), 30000 + (id % 30000) as u16);
-                    let c = dsim::with(|w| w.tcp_connect(src, dst));
+                    let c = dsim::with(|w| w.tcp_connect_opts(src, dst, reset));
                     ctx(|x| x.health_conns.push((id, c)));
                 })
             }),
@@ -982,6 +990,10 @@ pub fn run(plan: &Plan, tape: dsim::Tape) -> RunOut {
                         match kind.as_str() {
                             "recv_err" => w.cfg.faults.recv_err = permille,
                             "send_err" => w.cfg.faults.send_err = permille,
+                            "file_create_err" => w.cfg.faults.file_create_err = permille,
+                            "file_write_err" => w.cfg.faults.file_write_err = permille,
+                            "tcp_write_err" => w.cfg.faults.tcp_write_err = permille,
+                            "accept_err" => w.cfg.faults.accept_err = permille,
                             _ => {}
                         }
                         w.note(format!("fault rate {} = {} permille", kind, permille));
